@@ -95,83 +95,94 @@ def elemsOf : Tree → R (List Tree)
   | .list _ _ _ _ ks => .ok ks
   | _ => .error .conversion
 
+/-- one element of a list (`evalQuasiquoteAst`, the loop of the `canSplice` branch): the trees it
+    contributes to the new list.  `rec d x` is the recursive call at depth `d`. -/
+def elemPart (ev : Ev) (rec : Nat → Tree → R Tree) (f d : Nat) (es : Slot) (child : Tree) : R (List Tree) :=
+  let x := unwrap false child
+  match x with
+  | .node .unaryExpr _ op _ _ =>
+    if op = opQuasiquote then do
+      let b ← bodyOf x
+      let e ← rec (d+1) b
+      let q ← makeQuote2 op e
+      let q' ← conv es q
+      pure [q']
+    else if isUnquoteOp op then
+      let (last, ud, ops) := descend f x
+      if ud > d then .error .malformed
+      else if ud < d then do
+        let b ← bodyOf x
+        let e ← rec (d-1) b
+        let q ← makeQuote2 op e
+        let q' ← conv es q
+        pure [q']
+      else do
+        let b ← bodyOf last
+        let v ← ev b
+        if opOf last = opUnquote then do
+          let s ← dup (ops.take (ud-1)) v
+          let s' ← conv es s
+          pure [s']
+        else do
+          let vs ← elemsOf v
+          vs.mapM (fun e => do let s ← dup (ops.take (ud-1)) e; conv es s)
+    else do
+      let y ← rec d x
+      let y' ← conv es y
+      pure [y']
+  | .nil => do let y' ← conv es .nil; pure [y']
+  | _ => do
+    let y ← rec d x
+    let y' ← conv es y
+    pure [y']
+
+/-- a list: every element contributes its part -/
+def substList (ev : Ev) (rec : Nat → Tree → R Tree) (f d : Nat) (k : Kind) (c : Cat) (a : String) (es : Slot)
+    (ks : List Tree) : R Tree := do
+  let parts ← ks.mapM (elemPart ev rec f d es)
+  -- a typed slice to which nothing was appended is a nil slice: the parent's field stays nil
+  if parts.flatten.isEmpty && c == .slice then .ok .nil else
+  .ok (.list k c a es parts.flatten)
+
+/-- a node that is not a list (`evalQuasiquoteAst`, the `!canSplice` branch after unwrapping) -/
+def substNode (ev : Ev) (rec : Nat → Tree → R Tree) (d : Nat) (u : Tree) : R Tree :=
+  match u with
+  | .nil => .ok .nil
+  | .list _ _ _ _ _ => .error .malformed   -- handled by the caller
+  | .node k c a ss ks =>
+    if ks.isEmpty then .ok u else
+    if k = .unaryExpr ∧ a = opQuasiquote then do
+      let b ← bodyOf u
+      let e ← rec (d+1) b
+      makeQuote2 a e
+    else if k = .unaryExpr ∧ a = opUnquote then
+      if d ≤ 1 then do
+        let b ← bodyOf u
+        ev b
+      else do
+        let b ← bodyOf u
+        let e ← rec (d-1) b
+        makeQuote2 a e
+    else if k = .unaryExpr ∧ a = opUnquoteSplice then .error .malformed
+    else do
+      let ks' ← (ss.zip ks).mapM (fun (s, x) => match x with
+        | .nil => pure .nil
+        | _ => do let y ← rec d x; conv s y)
+      .ok (.node k c a ss ks')
+
 /-- the substitution: `subst ev fuel depth t` is `t` in which every unquote chain as long as `depth` is
     replaced by the value of its innermost body (spliced into the enclosing list for `~unquote_splice`),
     shorter chains lose one level, `~quasiquote` adds one. -/
 def subst (ev : Ev) : Nat → Nat → Tree → R Tree
   | 0, _, _ => .error .fuel
   | f+1, d, t =>
-    let node (u : Tree) : R Tree :=
-      match u with
-      | .nil => .ok .nil
-      | .list _ _ _ _ _ => .error .malformed   -- handled by the caller
-      | .node k c a ss ks =>
-        if ks.isEmpty then .ok u else
-        if k = .unaryExpr ∧ a = opQuasiquote then do
-          let b ← bodyOf u
-          let e ← subst ev f (d+1) b
-          makeQuote2 a e
-        else if k = .unaryExpr ∧ a = opUnquote then
-          if d ≤ 1 then do
-            let b ← bodyOf u
-            ev b
-          else do
-            let b ← bodyOf u
-            let e ← subst ev f (d-1) b
-            makeQuote2 a e
-        else if k = .unaryExpr ∧ a = opUnquoteSplice then .error .malformed
-        else do
-          let ks' ← (ss.zip ks).mapM (fun (s, x) => match x with
-            | .nil => pure .nil
-            | _ => do let y ← subst ev f d x; conv s y)
-          .ok (.node k c a ss ks')
-    let elems (k : Kind) (c : Cat) (a : String) (es : Slot) (ks : List Tree) : R Tree := do
-      let parts ← ks.mapM (fun child =>
-        let x := unwrap false child
-        match x with
-        | .node .unaryExpr _ op _ _ =>
-          if op = opQuasiquote then do
-            let b ← bodyOf x
-            let e ← subst ev f (d+1) b
-            let q ← makeQuote2 op e
-            let q' ← conv es q
-            pure [q']
-          else if isUnquoteOp op then
-            let (last, ud, ops) := descend f x
-            if ud > d then .error .malformed
-            else if ud < d then do
-              let b ← bodyOf x
-              let e ← subst ev f (d-1) b
-              let q ← makeQuote2 op e
-              let q' ← conv es q
-              pure [q']
-            else do
-              let b ← bodyOf last
-              let v ← ev b
-              if opOf last = opUnquote then do
-                let s ← dup (ops.take (ud-1)) v
-                let s' ← conv es s
-                pure [s']
-              else do
-                let vs ← elemsOf v
-                vs.mapM (fun e => do let s ← dup (ops.take (ud-1)) e; conv es s)
-          else do
-            let y ← subst ev f d x
-            let y' ← conv es y
-            pure [y']
-        | .nil => do let y' ← conv es .nil; pure [y']
-        | _ => do
-          let y ← subst ev f d x
-          let y' ← conv es y
-          pure [y'])
-      .ok (.list k c a es parts.flatten)
     match t with
     | .nil => .ok .nil
-    | .list k c a es ks => elems k c a es ks
+    | .list k c a es ks => substList ev (subst ev f) f d k c a es ks
     | _ =>
       match unwrap true t with
-      | .list k c a es ks => elems k c a es ks
-      | u => node u
+      | .list k c a es ks => substList ev (subst ev f) f d k c a es ks
+      | u => substNode ev (subst ev f) d u
 
 /-- `Env.evalQuasiquoteAst` of the classic interpreter is this recursion -/
 def qq (ev : Ev) (fuel depth : Nat) (t : Tree) : R Tree := subst ev fuel depth t
